@@ -3,6 +3,7 @@ copies patch.diff / demo.py / meta.json of a confirmed seeded change to /verif/s
 how the registered check reacted (the trial log /tmp/seed_<PROP>_<n>.log must exist)."""
 import json, os, shutil, sys
 src, name, detection, how = sys.argv[1:5]
+logfile = sys.argv[5] if len(sys.argv) > 5 else None
 prop, n = name.split("-")
 dst = os.path.join("/verif/seeded", name)
 os.makedirs(dst, exist_ok=True)
@@ -15,7 +16,7 @@ if os.path.exists(mp):
         meta = json.load(open(mp))
     except Exception:
         meta = {"note": open(mp).read()}
-log = open("/tmp/seed_%s_%s.log" % (prop, n)).read()
+log = open(logfile or "/tmp/seed_%s_%s.log" % (prop, n)).read()
 assert "demo on clean tree: exit 0" in log and "36 passed" in log and "demo with patch: exit 1" in log, log[:400]
 meta["property"] = prop
 meta["confirmed"] = "clean tree: 36 tests pass, demo exit 0; patched tree: 36 tests pass, demo exit 1 (tools/try_seed_wt.py)"
@@ -25,6 +26,7 @@ lines = [l.strip() for l in log.splitlines()]
 rc = [l for l in lines if l.startswith("check %s: exit" % prop)]
 meta["ran"] = "./check %s quick on the patched tree -> %s" % (prop, rc[-1] if rc else "?")
 fo = [l for l in lines if l.startswith("failed obligation:")]
+assert rc and rc[-1].endswith("exit 1"), rc
 if fo:
     meta["failed_obligation"] = fo[0][:400]
 json.dump(meta, open(os.path.join(dst, "meta.json"), "w"), indent=1)
